@@ -199,7 +199,7 @@ def r6_one_slot_at_a_time(ctx):
                         {T + "Task::pop_local": "one-slot accessor used by the two destructor loops",
                          "shuttle_engine::thread_support::thread_fn": "destructor loop of threads (checked above)",
                          "shuttle_std::future::Wrapper::finish": "destructor loop of futures (checked above)",
-                         ES + "cleanup": "drains the per-execution storage at the end of an execution (checked above)"})
+                         ES + "cleanup": "drains the per-execution storage at the end of an execution (checked above)"}, helpers=False)
 
 
 RULES = [("C07.R1", r1_thread_fn_order), ("C07.R2", r2_join), ("C07.R3", r3_storage), ("C07.R4", r4_scope), ("C07.R5", r5_ids), ("C07.R6", r6_one_slot_at_a_time)]
